@@ -573,6 +573,7 @@ func c17Keys(c *Ctx) {
 func c17KeyFile(c *Ctx, n int) {
 	sexpInputs(c, n/4)
 	c17KeyFileRoundTrip(c, 6+n/40)
+	keyFileCases(c, 10+n/20)
 }
 
 // libotr key files: exporting any list of accounts (names made of the characters libotr permits, any protocol symbol)
